@@ -55,7 +55,7 @@ impl Sender {
 //@@ generics
 //@@ param sendable : Sendable
 //@@ subst `.send_with_state::<T, SendError>(sendable.into(), __E1)` => `.send_with_state(sendable_into(sendable), __E1)` rule=R7
-//@@ subst `.map(|settlement| { __E1 })` => `.map(|settlement: Settlement| -> (o: DeliveryFut) ensures o.settlement == settlement && o.stop == self.inner.link.session_stop_reason { __E1 })` rule=R18
+//@@ subst `.map(|settlement| { __E1 })` => `.map(|settlement: Settlement| -> (o: DeliveryFut) ensures o.settlement == settlement && o.stop == self.inner.link.session_stop_reason { __E1 })` rule=R18 unless `\.map\(`
 //@@ spec
     ensures
         final(self).inner.sends@ == old(self).inner.sends@.push((sendable, None::<DeliveryState>, false)),          // [C02.sender-api.send-sends-once] one delivery, without a preset state
@@ -69,7 +69,7 @@ impl Sender {
 //@@ param sendable : Sendable
 //@@ ret Result<DeliveryFut, SendError>
 //@@ subst `.send_with_state(sendable.into(), __E1)` => `.send_with_state(sendable_into(sendable), __E1)` rule=R7
-//@@ subst `.map(|settlement| { __E1 })` => `.map(|settlement: Settlement| -> (o: DeliveryFut) ensures o.settlement == settlement && o.stop == self.inner.link.session_stop_reason { __E1 })` rule=R18
+//@@ subst `.map(|settlement| { __E1 })` => `.map(|settlement: Settlement| -> (o: DeliveryFut) ensures o.settlement == settlement && o.stop == self.inner.link.session_stop_reason { __E1 })` rule=R18 unless `\.map\(`
 //@@ spec
     ensures
         final(self).inner.sends@ == old(self).inner.sends@.push((sendable, None::<DeliveryState>, true)),
